@@ -107,6 +107,7 @@ profile_by_name(const std::string &name, const std::string &prop, int tier)
                 p.oracles = OR_FIFO | OR_XVAR;
                 p.max_ops = 40;
                 p.max_len = 1024;
+                p.big_prob = 0.35; // length classes above 32 KiB / 256 blocks differ per variant too (16-bit lane lengths)
                 p.allow_full = false;
         } else if (name == "ref_cipher") {
                 p.oracles = OR_FIFO | OR_REF;
@@ -212,7 +213,7 @@ gen_plan(const ProfileCfg &pc, uint64_t run_seed)
         const bool reattach_other_image = pc.allow_reattach && r.chance(0.5);
         GenOpts go;
         go.len_profile = (int) r.below(LEN_NPROF);
-        go.max_len = (pc.big_lens && r.chance(0.15)) ? 65534 : pc.max_len;
+        go.max_len = (pc.big_lens && r.chance(pc.big_prob)) ? 65534 : pc.max_len;
         if (go.max_len <= 4096 && (go.len_profile == LEN_4K || go.len_profile == LEN_MAX))
                 go.len_profile = LEN_MIXED;
         go.guard = pc.guard;
